@@ -143,9 +143,10 @@ func (p Pipe) DecryptDoc(doc []byte) string {
 	return p.DecryptFrom(p.reader(doc))
 }
 
-// DecryptFrom is DecryptDoc with the document delivered by the given reader.
-func (p Pipe) DecryptFrom(src io.Reader) string {
-	r, err := enc.Decrypt(src, enc.DecryptOptions{
+// OpenDecrypt only calls the real Decrypt (header read, key unwrapped, MAC checked, background
+// goroutine started) and hands back the plaintext stream undrained.
+func (p Pipe) OpenDecrypt(src io.Reader) (io.Reader, error) {
+	return enc.Decrypt(src, enc.DecryptOptions{
 		UnwrapKeyFn: func(w []byte, alg, kn string, nonce, tag []byte) ([]byte, error) {
 			if p.SlowUs > 0 {
 				time.Sleep(time.Duration(p.SlowUs) * time.Microsecond)
@@ -157,16 +158,40 @@ func (p Pipe) DecryptFrom(src io.Reader) string {
 			}
 			return p.wrap(w), nil
 		}})
-	if err != nil {
-		return "dec=" + errStr(err)
+}
+
+// OpenEncrypt only calls the real Encrypt and hands back the document stream undrained.
+func (p Pipe) OpenEncrypt(src io.Reader) (io.Reader, error) {
+	opts := enc.EncryptOptions{Algorithm: enc.KeyAlgorithm(p.Alg), KeyName: p.KeyName,
+		WrapKeyFn: func(k []byte, alg, kn string, nonce []byte) ([]byte, []byte, error) { return p.wrap(k), nil, nil }}
+	if p.Cipher != "" {
+		c := enc.Cipher(p.Cipher)
+		opts.Cipher = &c
 	}
-	plain, err := io.ReadAll(r)
+	return enc.Encrypt(src, opts)
+}
+
+// PlainResult canonicalises a drained plaintext stream the way DecryptFrom does.
+func (p Pipe) PlainResult(plain []byte, err error) string {
 	h := sha256.Sum256(plain)
 	s := fmt.Sprintf("dec=- term=%s plain=%d:%s", errStr(err), len(plain), hex.EncodeToString(h[:8]))
 	if err == nil && !bytes.Equal(plain, p.Message()) {
 		s += " WRONG-PLAINTEXT"
 	}
 	return s
+}
+
+// ErrStr is the canonical spelling of an error inside result strings.
+func ErrStr(e error) string { return errStr(e) }
+
+// DecryptFrom is DecryptDoc with the document delivered by the given reader.
+func (p Pipe) DecryptFrom(src io.Reader) string {
+	r, err := p.OpenDecrypt(src)
+	if err != nil {
+		return "dec=" + errStr(err)
+	}
+	plain, err := io.ReadAll(r)
+	return p.PlainResult(plain, err)
 }
 
 // Run = the complete pipeline.
@@ -218,6 +243,21 @@ func TrackBufPool() {
 func PoolBuffers() int {
 	poolMu.Lock()
 	defer poolMu.Unlock()
+	return len(poolBufs)
+}
+
+// ScribbleIdlePool overwrites every buffer BufPool has ever created. Only to be called while no
+// pipeline is running in the process: then every one of them is in the pool (or dropped by it),
+// where anybody may take it and write to it — nothing that is still to be read may depend on them.
+func ScribbleIdlePool(v byte) int {
+	poolMu.Lock()
+	defer poolMu.Unlock()
+	for _, b := range poolBufs {
+		s := (*b)[:cap(*b)]
+		for i := range s {
+			s[i] = v
+		}
+	}
 	return len(poolBufs)
 }
 
